@@ -385,18 +385,22 @@ example : (runAction sampleWorld sampleDelete).aborted = false ∧
 
 /-- **fanout_producers.** Who the relevant nsqds are: the producer list after a successful lookup is the
 lookup's answer; through nsqlookupd it has no duplicates and contains exactly the addresses that some
-responding nsqlookupd reports; in direct mode it is the configured nsqds that answer and list the topic.
-`GetTopicProducers` asks the nsqlookupds iff one is configured (`Tie.getTopicProducers_fallback`). -/
+responding nsqlookupd reports; in direct mode it has one entry per configured nsqd that answers and lists the
+topic — **the address that nsqd's `/info` reports** (`reportOf`), not the configured one, and not
+de-duplicated; for a tombstone it is the address the named node reports. `GetTopicProducers` asks the
+nsqlookupds iff one is configured (`Tie.getTopicProducers_fallback`). The last three conjuncts restate the
+definitions of the model (they are what the `fan` correspondence stream checks against the code). -/
 theorem fanout_producers (w : World) (a : Action) (hwf : Action.wf a)
     (hab : (runAction w a).aborted = false) (l : Lookup) (hl : lookupOf a.kind = some l) :
     (runAction w a).producers = (doLookup w a l).producers ∧
     ((lookupdTopicProducers w a).producers.Nodup ∧
       ∀ p, p ∈ (lookupdTopicProducers w a).producers ↔
         ∃ lk ∈ w.lookupds, getOk w lk.addr = true ∧ p ∈ lk.producers) ∧
-    (nsqdTopicProducers w a).producers = w.nsqdAddrs.filter (nodeHasTopic w) ∧
+    (nsqdTopicProducers w a).producers = (w.nsqdAddrs.filter (nodeHasTopic w)).map (reportOf w) ∧
+    (nsqdProducersOfNode w a).producers = (if nodeUp w a.node then [reportOf w a.node] else []) ∧
     doLookup w a .topicProducers =
       (if !w.lookupds.isEmpty then lookupdTopicProducers w a else nsqdTopicProducers w a) :=
-  ⟨(producers_of_run w a hwf hab l hl).1, lookupd_producers w a, rfl, rfl⟩
+  ⟨(producers_of_run w a hwf hab l hl).1, lookupd_producers w a, rfl, rfl, rfl⟩
 
 example : lookupOf sampleDelete.kind = some .topicProducers := by decide
 
@@ -411,6 +415,81 @@ theorem fanout_lookup_first (w : World) (a : Action)
 
 example : sampleDelete.kind ≠ .createTopic ∧ sampleDelete.kind ≠ .createChannel ∧
     sampleDelete.kind ≠ .tombstone := by decide
+
+/-- **fanout_goes_where_info_points** (audit C16). In direct-nsqd mode and for a tombstone the nsqd command is
+not sent to the address nsqadmin was configured with / was asked about, but to the address that nsqd's own
+`/info` answer reports, and two nsqds that report the same address get it twice there. So
+`DELETE /api/nodes/A`, when A's `/info` claims B's address, deletes the topic on **B**. This is what the
+code does (`Producer.HTTPAddress()`); the theorem states it, the examples show it. -/
+theorem fanout_goes_where_info_points (w : World) (a : Action) (hwf : Action.wf a)
+    (hab : (runAction w a).aborted = false) :
+    (a.kind = .tombstone →
+      postsTo (runAction w a) .nsqd "/topic/delete" (qsOf a .topic) =
+        (if nodeUp w a.node then [reportOf w a.node] else [])) ∧
+    (w.lookupds = [] → ∀ c, nsqdCmd a.kind = some c → lookupOf a.kind = some .topicProducers →
+      postsTo (runAction w a) .nsqd (pathOf c.1) (qsOf a c.2) =
+        (w.nsqdAddrs.filter (nodeHasTopic w)).map (reportOf w)) := by
+  constructor
+  · intro hk
+    have h1 := nsqds_exactly_once w a hwf hab ("topic/delete", .topic) (by simp [nsqdCmd, hk])
+    have h2 := (producers_of_run w a hwf hab .nsqdProducersOfNode (by simp [lookupOf, hk])).1
+    simpa [pathOf, h2, doLookup, node_producers] using h1
+  · intro hl c hc hlk
+    have h1 := nsqds_exactly_once w a hwf hab c hc
+    have h2 := (producers_of_run w a hwf hab .topicProducers hlk).1
+    rw [h1, h2]
+    simp [doLookup, hl, nsqd_producers]
+
+/-- A's `/info` claims B's address: the tombstone of A deletes the topic on B, and A is only asked. -/
+def liarWorld : World :=
+  { lookupds := [{ addr := "L", up := true, producers := [] }], nsqdAddrs := [],
+    nsqds := [{ addr := "A", up := true, hasTopic := true, reports := "B" },
+              { addr := "B", up := true, hasTopic := true }] }
+
+example : (runAction liarWorld { kind := .tombstone, topic := "t1", node := "A" }).reqs.map renderReq =
+    ["P:L/topic/tombstone?topic=t1&node=A", "G:A/info", "G:A/stats?format=json&include_clients=false",
+     "P:B/topic/delete?topic=t1"] := by decide
+/-- Direct mode, two configured nsqds reporting one address: that address is POSTed twice. -/
+def twinWorld : World :=
+  { lookupds := [], nsqdAddrs := ["A", "B"],
+    nsqds := [{ addr := "A", up := true, hasTopic := true, reports := "B" },
+              { addr := "B", up := true, hasTopic := true }] }
+
+example : ((runAction twinWorld { kind := .emptyTopic, topic := "t" }).reqs.filter (·.post)).map renderReq =
+    ["P:B/topic/empty?topic=t", "P:B/topic/empty?topic=t"] := by decide
+
+/-- **create_direct_mode_sends_nothing** (audit C15; open finding `fanout:create-direct-mode`). Without a
+configured nsqlookupd `CreateTopicChannel` — which is only ever given the nsqlookupd addresses — sends no
+request at all; for a topic alone it returns nil: the handler answers 200 and announces `create_topic`, and
+no nsqd has been told (with a channel it returns "failed to query any nsqlookupd" over zero nsqlookupds: 502). `fanout_exactly_once` holds for this action only because its set of relevant upstreams is empty. -/
+theorem create_direct_mode_sends_nothing (w : World) (a : Action) (hl : w.lookupds = [])
+    (hk : a.kind = .createTopic ∨ a.kind = .createChannel) :
+    (runAction w a).reqs = [] ∧
+    (a.channel = "" → (resultOf (progOf a.kind) (runAction w a)).1 = .none) ∧
+    (a.channel ≠ "" → (resultOf (progOf a.kind) (runAction w a)).1 = .full) := by
+  have hp : progOf a.kind = createProg := by rcases hk with hk | hk <;> simp [progOf, hk]
+  unfold runAction
+  rw [hp]
+  by_cases hc : a.channel = "" <;>
+    simp [Nsq.Model.AdminProg.run, runSteps, execStep, createProg, agg, aggCh, opReqs, doLookup,
+      lookupdTopicProducers, hl, hc, failCount, St.reqs, resultOf, guardHolds]
+
+def soloWorld : World :=
+  { lookupds := [], nsqdAddrs := ["A"], nsqds := [{ addr := "A", up := true, hasTopic := false }] }
+
+example : (runAction soloWorld { kind := .createTopic, topic := "brandnew" }).reqs = [] := by decide
+/-- The full clause "the action is carried out on every relevant nsqd" is therefore false of the code in this
+mode: an nsqd is configured, the answer is `nil` (→ 200), and it received nothing. -/
+def CreateReachesConfiguredNsqds : Prop :=
+  ∀ (w : World) (a : Action), a.kind = .createTopic → (resultOf (progOf a.kind) (runAction w a)).1 = .none →
+    ∀ n ∈ w.nsqdAddrs, ∃ r ∈ (runAction w a).reqs, r.post = true ∧ r.addr = n
+
+theorem create_reaches_configured_nsqds_false : ¬ CreateReachesConfiguredNsqds := by
+  intro h
+  obtain ⟨r, hr, _⟩ := h soloWorld { kind := .createTopic, topic := "brandnew" } rfl (by decide) "A" (by simp [soloWorld])
+  have hnil : (runAction soloWorld { kind := .createTopic, topic := "brandnew" }).reqs = [] := by decide
+  rw [hnil] at hr
+  cases hr
 
 end Programs
 
